@@ -653,8 +653,16 @@ func (c *Cluster) execMulti(sc *Conn, req *wire.Request, m *pb.MultiRequest, cel
 	for i := range all {
 		rs := &all[i]
 		e0 := Exec{}
-		_, rs.exc = c.checkRegionLocked(sc.Addr, rs.name, nil, &e0)
+		var reg *Region
+		reg, rs.exc = c.checkRegionLocked(sc.Addr, rs.name, nil, &e0)
 		rs.excResult = e0.Result
+		if rs.exc == nil && reg != nil {
+			if rr := c.regionByNameLocked(rs.name); rr != nil && len(rr.MultiExc) > 0 {
+				x := rr.MultiExc[0]
+				rr.MultiExc = rr.MultiExc[1:]
+				rs.exc, rs.excResult = &x, x.Class
+			}
+		}
 		if rs.exc != nil {
 			continue
 		}
